@@ -8,6 +8,7 @@ from .. import gen as G, harness as H, loader, model as M, spec as S
 
 PROP = "C11"
 LEVEL = "exploration"
+ANCHORS = ["__init__", "_check_limits", "_check_interp"]  # functions whose reached lines are reported in the evidence
 RULE = (
     "cases = (kind, base arguments, one injected defect) over all 11 kinds and scalar / list / table forms: "
     "efficiency <= 0, > 1, NaN (constant) and <= 0 / > 1 inside tables; |vdrop| >= |vo|; zero load resistance; "
